@@ -95,7 +95,7 @@ Lemma dec_process_factor cf mem rs m pu pg now :
   | inr (m', k) =>
       if r_mem k rs then
         if cf_socket_retry cf && (0 <? m_retry m') && (m_retry m' <=? c_retry_attempts)
-        then (m', rs, Some k)
+        then (m', rs, None)
         else (dec_finish (set_err m' e_cred_replayed None), rs, None)
       else (m', k :: rs, Some k)
   end.
@@ -236,25 +236,25 @@ Proof.
   rewrite (rollback_insert _ _ Hm). reflexivity.
 Qed.
 
-(* (b) accepted, record present (left by an earlier attempt of this very request): the retry exception *)
+(* (b) accepted, record present (left by an earlier attempt of this very request): the retry exception.  The record
+   stays whatever happens to this attempt's reply: the attempt added nothing, so a reply that cannot be sent takes
+   nothing back (the earlier attempt's reply was sent as far as the daemon can tell) *)
 Lemma attempt_present cf mem cred pu pg now rs i f m0 k :
   cf_socket_retry cf = true ->
-  dec_pre cf mem (req cred 0) pu pg now = inr (m0, k) -> r_mem k rs = false -> (2 <= i <= 5)%nat ->
+  dec_pre cf mem (req cred 0) pu pg now = inr (m0, k) -> (2 <= i <= 5)%nat ->
   dec_attempt cf mem cred pu pg now (k :: rs) i f =
   match f with
   | None => (k :: rs, Some (rt (N.of_nat (i - 1)) m0))
-  | Some RspSendFailed => (rs, None)
   | Some _ => (k :: rs, None)
   end.
 Proof.
-  intros Hc Hp Hm Hi. rewrite attempt_req, dec_process_factor, req_pre, Hp by lia. cbn [retag].
+  intros Hc Hp Hi. rewrite attempt_req, dec_process_factor, req_pre, Hp by lia. cbn [retag].
   rewrite r_mem_head, Hc.
   change (m_retry (m0 <| m_retry := N.of_nat (i - 1) |>)) with (N.of_nat (i - 1)).
   replace (0 <? N.of_nat (i - 1)) with true by lia.
   replace (N.of_nat (i - 1) <=? c_retry_attempts) with true by (change c_retry_attempts with 5; lia).
   cbn [andb].
-  destruct f as [[| |]|]; try reflexivity.
-  rewrite (rollback_insert _ _ Hm). reflexivity.
+  destruct f as [[| |]|]; reflexivity.
 Qed.
 
 Lemma client_step fuel cf mem cred pu pg now C i faults :
@@ -293,14 +293,14 @@ Proof.
   - destruct fuel as [|fuel]; [cbn in H3; lia|]. cbn [length] in *. rewrite client_step.
     destruct HC as [->|[-> Hi]].
     + rewrite (attempt_fresh _ _ _ _ _ _ _ _ _ _ _ Hp Hm) by lia. eexists; split; reflexivity.
-    + rewrite (attempt_present _ _ _ _ _ _ _ _ _ _ _ Hc Hp Hm) by lia. eexists; split; reflexivity.
+    + rewrite (attempt_present _ _ _ _ _ _ _ _ _ _ _ Hc Hp) by lia. eexists; split; reflexivity.
   - destruct fuel as [|fuel]; [cbn in H3; lia|]. cbn [length] in *. rewrite client_step.
     assert (L : Nat.leb 5 i = false) by lia.
     destruct HC as [->|[-> Hi]].
     + rewrite (attempt_fresh _ _ _ _ _ _ _ _ _ _ _ Hp Hm) by lia.
       destruct f; rewrite L; apply IH; try lia; auto.
       right. split; [reflexivity|lia].
-    + rewrite (attempt_present _ _ _ _ _ _ _ _ _ _ _ Hc Hp Hm) by lia.
+    + rewrite (attempt_present _ _ _ _ _ _ _ _ _ _ _ Hc Hp) by lia.
       destruct f; rewrite L; apply IH; try lia; auto.
       all: right; split; [reflexivity|lia].
 Qed.
@@ -334,6 +334,29 @@ Theorem unsent_reply_keeps_credential cf mem cred pu pg now rs m0 k :
   fst (dec_attempt cf mem cred pu pg now rs 1 (Some RspSendFailed)) = rs.
 Proof.
   intros Hp Hm. rewrite (attempt_fresh _ _ _ _ _ _ _ _ _ _ _ Hp Hm) by lia. reflexivity.
+Qed.
+
+(* ... in general: an attempt whose reply munged could not send leaves the cache exactly as it found it, for every
+   cache, attempt number and credential - it takes back the record IT added and nothing else *)
+Theorem unsent_reply_restores_cache cf mem cred pu pg now rs i :
+  fst (dec_attempt cf mem cred pu pg now rs i (Some RspSendFailed)) = rs.
+Proof.
+  rewrite attempt_req, dec_process_factor.
+  destruct (dec_pre cf mem (req cred (N.of_nat (i - 1))) pu pg now) as [r0|[m' k]]; [reflexivity|].
+  destruct (r_mem k rs) eqn:M.
+  - destruct (_ && _ && _); reflexivity.
+  - cbn [fst]. apply rollback_insert. exact M.
+Qed.
+
+(* a retry that finds the record of its own earlier attempt is served (the retry exemption) and the record STAYS,
+   whatever happens to this attempt's reply: the earlier attempt's reply was sent as far as the daemon can tell *)
+Theorem retry_on_own_record_keeps_it cf mem cred pu pg now rs i f m0 k :
+  cf_socket_retry cf = true ->
+  dec_pre cf mem (req cred 0) pu pg now = inr (m0, k) -> (2 <= i <= 5)%nat ->
+  dec_attempt cf mem cred pu pg now (k :: rs) i f =
+  (k :: rs, match f with None => Some (rt (N.of_nat (i - 1)) m0) | Some _ => None end).
+Proof.
+  intros Hc Hp Hi. rewrite (attempt_present _ _ _ _ _ _ _ _ _ _ _ Hc Hp Hi). destruct f; reflexivity.
 Qed.
 
 Lemma attempt_fault cf mem cred pu pg now C i f :
